@@ -44,78 +44,9 @@ fn try_read_length_32_contract() {
 	kani::cover!(r.is_ok()); kani::cover!(r.is_err());
 }
 
-// ------------------------------------------------------------------------------------------
-// Bounded pair of the Verus unit (replay helper, labelled bounded): the real next_value_size against
-// an executable transcription of the spec function mp_value, input <= 5 bytes, depth <= 3.
-// ------------------------------------------------------------------------------------------
-
-fn x_be16(s: &[u8]) -> usize { (s[1] as usize) * 256 + s[2] as usize }
-fn x_be32(s: &[u8]) -> usize { (s[1] as usize) * 16777216 + (s[2] as usize) * 65536 + (s[3] as usize) * 256 + s[4] as usize }
-
-fn x_items(s: &[u8], count: usize, d: usize) -> Option<usize> {
-	if d == 0 { return if count == 0 { Some(0) } else { None }; }
-	let mut total = 0usize;
-	let mut k = 0usize;
-	while k < count {
-		// every item is at least one byte: more items than bytes can never be complete
-		if total >= s.len() { return None; }
-		match x_value(&s[total..], d - 1) { None => return None, Some(n) => total += n }
-		k += 1;
-	}
-	Some(total)
-}
-
-fn x_value(s: &[u8], d: usize) -> Option<usize> {
-	if d == 0 || s.is_empty() { return None; }
-	let b = s[0];
-	let l = s.len();
-	let add = |k: usize, r: Option<usize>| r.map(|n| k + n);
-	let body = if b <= 0x7f || b >= 0xe0 || b == 0xc0 || b == 0xc2 || b == 0xc3 { Some(1) }
-		else if b == 0xc1 { None }
-		else if b == 0xcc || b == 0xd0 { Some(2) }
-		else if b == 0xcd || b == 0xd1 { Some(3) }
-		else if b == 0xce || b == 0xd2 || b == 0xca { Some(5) }
-		else if b == 0xcf || b == 0xd3 || b == 0xcb { Some(9) }
-		else if b == 0xd4 { Some(3) } else if b == 0xd5 { Some(4) } else if b == 0xd6 { Some(6) }
-		else if b == 0xd7 { Some(10) } else if b == 0xd8 { Some(18) }
-		else if b == 0xc7 { if l >= 2 { Some(3 + s[1] as usize) } else { None } }
-		else if b == 0xc8 { if l >= 3 { Some(4 + x_be16(s)) } else { None } }
-		else if b == 0xc9 { if l >= 5 { Some(6 + x_be32(s)) } else { None } }
-		else if (0xa0..=0xbf).contains(&b) { Some(1 + (b - 0xa0) as usize) }
-		else if b == 0xd9 || b == 0xc4 { if l >= 2 { Some(2 + s[1] as usize) } else { None } }
-		else if b == 0xda || b == 0xc5 { if l >= 3 { Some(3 + x_be16(s)) } else { None } }
-		else if b == 0xdb || b == 0xc6 { if l >= 5 { Some(5 + x_be32(s)) } else { None } }
-		else if (0x90..=0x9f).contains(&b) { add(1, x_items(&s[1..], (b - 0x90) as usize, d)) }
-		else if (0x80..=0x8f).contains(&b) { add(1, x_items(&s[1..], 2 * (b - 0x80) as usize, d)) }
-		else if b == 0xdc { if l >= 3 { add(3, x_items(&s[3..], x_be16(s), d)) } else { None } }
-		else if b == 0xde { if l >= 3 { add(3, x_items(&s[3..], 2 * x_be16(s), d)) } else { None } }
-		else if b == 0xdd { if l >= 5 { add(5, x_items(&s[5..], x_be32(s), d)) } else { None } }
-		else { if l >= 5 { add(5, x_items(&s[5..], 2 * x_be32(s), d)) } else { None } };
-	match body { Some(n) if n <= l => Some(n), _ => None }
-}
-
-const PAIR_N: usize = 3;
-
-#[kani::proof]
-#[kani::unwind(5)]
-fn mp_size_matches_exec_spec() {
-	let buf: [u8; PAIR_N] = kani::any();
-	let n: usize = kani::any();
-	kani::assume(n >= 1 && n <= PAIR_N);
-	let d: usize = kani::any();
-	kani::assume(d <= 2);
-	let input = &buf[..n];
-	let r = next_value_size(input, d);
-	let want = x_value(input, d);
-	match r {
-		Ok(sz) => { assert!(want == Some(sz)); assert!(sz >= 1 && sz <= n); }
-		Err(_) => assert!(want.is_none()),
-	}
-	if d == 0 { assert!(r == Err(ReadSizeError::DepthLimitExceeded)); }
-	kani::cover!(matches!(r, Ok(3)));
-	kani::cover!(matches!(r, Ok(2)) && buf[0] == 0x91);
-	kani::cover!(matches!(r, Err(ReadSizeError::DepthLimitExceeded)) && d == 1);
-}
+// (The executable transcription of the Verus spec functions lives in msgpack_execspec.rs; it is used by the native
+// failing-input search contracts/native/msgpack_search.rs.  A Kani pair of next_value_size against it was tried
+// and dropped: even with enumerated lengths <= 3 it needed > 15 GB / > 10 min.)
 
 // ------------------------------------------------------------------------------------------
 // U-MP-G: first-byte gate and error mapping of input_matches.  The rmp_serde trial is replaced by
